@@ -1,6 +1,10 @@
 import GramModel.Generated.Sites
 import GramModel.Props.C09
 import GramModel.Props.C12
+import GramModel.Parser
+import GramModel.Lemmas.Parser
+import GramModel.Lemmas.ParserTermination
+import GramModel.Lemmas.ParserNoPanic
 
 /-!
 # C14 — gram handles every input without crashing and reports failure faithfully
@@ -86,3 +90,52 @@ theorem C14_tokenize_total : C14_tokenize_total_stmt := C09_total
 /-- A tokenizer failure lists at least one symbol. -/
 def C14_tokenize_err_nonempty_stmt : Prop := C09_err_nonempty_stmt
 theorem C14_tokenize_err_nonempty : C14_tokenize_err_nonempty_stmt := C09_err_nonempty
+
+/-! ## The parser: termination and panic-freedom of the model (`PModel`) -/
+
+/-- **Parsing terminates**: the fuel `36·(n+1)+1` always suffices — the memoised packrat functions
+never run out of it, for any token sequence (no left recursion: every nonterminal either consumes a
+token before calling a larger one, or calls a strictly smaller one at the same position). -/
+def C14_parse_terminates_stmt : Prop :=
+  ∀ (toks : Array PModel.PTok), PModel.runParser toks ≠ none
+theorem C14_parse_terminates : C14_parse_terminates_stmt := by
+  intro toks h
+  obtain ⟨r, st', e, _⟩ := PModel.runParser_ok toks
+  rw [h] at e; cases e
+
+/-- **No panic after a clean parse**: the three re-association passes never meet a `ParseError`
+node when the parse produced no error (the invariant behind `[tag:error_check]`): a tree without
+recorded errors contains no `ParseError` node. -/
+def C14_reassoc_no_panic_stmt : Prop :=
+  ∀ (toks : Array PModel.PTok) (r : PModel.PResult) (st : PModel.PState),
+    PModel.runParser toks = some (r, st) → PModel.collectErrors r.term = [] →
+    ∃ t1 t2 t3, PModel.reassociateApplications r.term = some t1 ∧
+      PModel.reassociateProductsAndQuotients t1 = some t2 ∧
+      PModel.reassociateSumsAndDifferences t2 = some t3
+theorem C14_reassoc_no_panic : C14_reassoc_no_panic_stmt := by
+  intro toks r st h hce
+  obtain ⟨t1, t2, t3, h1, h2, h3, _⟩ :=
+    PModel.reassoc_passes_noPE r.term ((PModel.runParser_good h).2 hce)
+  exact ⟨t1, t2, t3, h1, h2, h3⟩
+
+/-- **The whole front end never panics** (model): `parse` returns a term or a list of errors. -/
+def C14_parse_no_panic_stmt : Prop :=
+  ∀ (toks : Array PModel.PTok) (ctx : List Name),
+    (∃ t, PModel.parseModel toks ctx = .ok t) ∨ (∃ es, PModel.parseModel toks ctx = .errors es)
+theorem C14_parse_no_panic : C14_parse_no_panic_stmt := by
+  intro toks ctx
+  unfold PModel.parseModel
+  obtain ⟨r, st', e, _⟩ := PModel.runParser_ok toks
+  rw [e]
+  exact PModel.finishParse_no_panic toks ctx r.term r.next (PModel.runParser_good e).2
+
+/-- A rejection by the parser lists at least one diagnostic. -/
+def C14_parse_err_nonempty_stmt : Prop :=
+  ∀ (toks : Array PModel.PTok) (ctx : List Name) (es : List PModel.PErr),
+    PModel.parseModel toks ctx = .errors es → es ≠ []
+theorem C14_parse_err_nonempty : C14_parse_err_nonempty_stmt := by
+  intro toks ctx es h
+  unfold PModel.parseModel at h
+  split at h
+  · exact PModel.ParseOutcome.noConfusion h
+  · exact PModel.finishParse_errors_ne h
